@@ -3063,6 +3063,7 @@ class DataFrame(FrameBase):
         DataFrame.map_partitions
         """
         axis = self._validate_axis(axis)
+        _reject_collection_arguments("DataFrame.apply", args, kwargs)
         if axis == 0:
             msg = (
                 "Dask DataFrame.apply only supports axis=1\n"
@@ -4194,6 +4195,7 @@ class Series(FrameBase):
         Series.map_partitions
         """
         self._validate_axis(axis)
+        _reject_collection_arguments("Series.apply", args, kwargs)
         if meta is no_default:
             meta = expr._emulate(M.apply, self, function, args=args, udf=True, **kwargs)
             warnings.warn(meta_warning(meta))
@@ -5501,6 +5503,19 @@ def map_partitions(
     return new_collection(new_expr)
 
 
+def _reject_collection_arguments(method, args, kwargs):
+    # pandas gets these arguments as they are: a collection among them would be
+    # embedded in every task instead of being computed as a dependency of it
+    extra = kwargs.get("args", ())
+    extra = extra if isinstance(extra, (tuple, list)) else (extra,)
+    if any(is_dask_collection(v) for v in [*args, *extra, *kwargs.values()]):
+        raise NotImplementedError(
+            f"{method} can't pass a dask collection to the function as an "
+            "argument. Use map_partitions, which accepts collections as "
+            "arguments, or compute the collection first."
+        )
+
+
 def map_overlap(
     func,
     df,
@@ -5541,11 +5556,23 @@ def map_overlap(
 
     df = _maybe_from_pandas([df])[0]
     args = _maybe_from_pandas(args)
+    # Collections passed as keyword arguments are operands like positional ones
+    # (``func``, ``before`` and ``after`` come between the frame and ``args``)
+    kwarg_refs = False
+    for key, value in kwargs.items():
+        if isinstance(getattr(value, "expr", value), expr.Expr):
+            kwargs[key] = kwarg_refs = expr._OperandRef(4 + len(args))
+            args.append(value)
 
     if align_dataframes:
         dfs = [df] + args
         dfs = [df for df in dfs if isinstance(df, FrameBase)]
         if len(dfs) > 1 and not expr.are_co_aligned(*dfs):
+            if kwarg_refs:
+                raise NotImplementedError(
+                    "map_overlap can't align a collection that is passed as a "
+                    "keyword argument; pass it as a positional argument"
+                )
             return new_collection(
                 expr.MapOverlapAlign(
                     df,
